@@ -8,6 +8,7 @@ import (
 	"math"
 	"reflect"
 	"sort"
+	"strings"
 
 	. "adharness/common"
 
@@ -529,6 +530,12 @@ func ctorName(kind string) string {
 }
 
 func runRecipe(rc Recipe) (res Result) {
+	if _, _, ok := tableKind(rc.Kind); ok {
+		return runTable(rc)
+	}
+	if strings.HasPrefix(rc.Kind, "cfg") {
+		return runConfig(rc)
+	}
 	et := etypeByName(rc.Type)
 	kind := baseKind(rc.Kind)
 	res.Key = rc.Kind + "/" + rc.Type
